@@ -6,7 +6,7 @@ name="$1"; shift
 wt=/var/tmp/seedmx-$name-$$; out=/var/tmp/seedmx-out-$name-$$
 git -C /repo worktree add --detach "$wt" HEAD >/dev/null 2>&1 || exit 2
 trap 'git -C /repo worktree remove --force "$wt" >/dev/null 2>&1; rm -rf "$wt" "$out"' EXIT INT TERM
-( cd "$wt" && git apply /verif/seeded/$name/patch.diff ) || { echo "SEED $name: patch does not apply"; exit 3; }
+( cd "$wt" && ( git apply /verif/seeded/$name/patch.diff 2>/dev/null || git apply --3way /verif/seeded/$name/patch.diff >/dev/null 2>&1 ) ) || { echo "SEED $name: patch does not apply"; exit 3; }
 cd /verif
 for c in "$@"; do
   o=$(VERIF_REPO="$wt" VERIF_OUT="$out" VERIF_PROCS=${VERIF_PROCS:-4} ./run "$c" --tier ${TIER:-quick} 2>&1); rc=$?
